@@ -27,14 +27,19 @@ def main():
     open(fn, "w").write(src.replace(old, new))
     env = dict(os.environ, VERIF_REPO=WT, PYTHONPATH=WT + ":/verif", PYTHONDONTWRITEBYTECODE="1")
     cmd = ["/venv/bin/python", "-m", "vp.runner", prop, "--tier", "quick"] + (["--only", only] if only else [])
+    import signal
+    proc = subprocess.Popen(cmd, env=env, cwd="/verif", stdout=subprocess.PIPE, stderr=subprocess.STDOUT, text=True,
+                            start_new_session=True)
     try:
-        r = sh(*cmd, env=env, cwd="/verif", stdout=subprocess.PIPE, stderr=subprocess.STDOUT, text=True,
-               timeout=int(os.environ.get("MUT_TIMEOUT", "420")))
+        stdout, _ = proc.communicate(timeout=int(os.environ.get("MUT_TIMEOUT", "420")))
     except subprocess.TimeoutExpired:
-        subprocess.run(["pkill", "-f", "VERIF_MUT_MARK=%d" % os.getpid()])
+        os.killpg(proc.pid, signal.SIGKILL)
+        proc.wait()
         sh("git", "-C", WT, "checkout", "-q", "--", ".")
         print("MUT HANG (timeout) - the mutant makes the check hang; not counted as caught")
         return 0
+    class R: pass
+    r = R(); r.stdout = stdout; r.returncode = proc.returncode
     sh("git", "-C", WT, "checkout", "-q", "--", ".")
     out = r.stdout.strip().splitlines()
     tail = [l for l in out if l.startswith(("VIOLATION", "violation", "HARNESS", "KNOWN"))][:4] or out[-3:]
